@@ -313,7 +313,8 @@ def install(interp):
 
     def chain(ex, *its):
         return [x for i in its for x in ex.iterate_concrete(i)]
-    interp.ext_modules.setdefault("itertools", Namespace("itertools", zip_longest=Native(zip_longest, "zip_longest"), chain=Native(chain, "chain")))
+    interp.ext_modules.setdefault("itertools", Namespace("itertools", zip_longest=Native(zip_longest, "zip_longest"), chain=Native(chain, "chain"),
+                                                     count=Native(lambda ex, start=0, step=1: _it.count(start, step), "count")))
     for m in ("typing", "typing_extensions", "abc", "collections.abc", "logging", "warnings"):
         interp.ext_modules.setdefault(m, Namespace(m, TYPE_CHECKING=False, NamedTuple=None, Protocol=None,
                                                    ABC=None, abstractmethod=None, abstractproperty=None))
